@@ -52,6 +52,11 @@ def gen_cases(tier: str, seed: int) -> list[dict]:
                           "n_shards": n_shards, "eps": rng.choice([1, 2, 3]), "position": position,
                           "damage": rng.choice(DAMAGES), "par": rng.choice([1, 2, 3, n_shards, n_shards + 2]),
                           "dseed": rng.choice([None, rng.randrange(1 << 30)]), "vseed": rng.randrange(1 << 30)})
+    # the lazy pool behind shuffled concurrent reading, under the controlled scheduler, with a failing
+    # (often slow, i.e. late) read: the consumer must get the error — never a normal end, never a deadlock
+    for _ in range(8 if tier == "quick" else 200):
+        cases.append({"kind": "pool", "policy": rng.choice(["random", "sticky", "pct"]), "seed": rng.randrange(1 << 30),
+                      "count": 400})
     if tier == "quick":
         rng.shuffle(cases)
     return cases
@@ -71,7 +76,55 @@ def damage_file(path, kind: str, rng: random.Random) -> None:
         path.write_bytes(bytes(b ^ 0xFF for b in data[:12]) + data[12:])
 
 
+def run_pool_case(case: dict) -> dict:
+    from rtmon.props import c13
+    sched_mod, lp = c13.ensure_installed()
+    rng = random.Random(case["seed"])
+    violations, obs = [], Counter()
+    hashes = set()
+    try:
+        for _ in range(case["count"]):
+            T = rng.randint(1, 5)
+            n = rng.choice([1, T, T + 1, 2 * T + 1, 2 * T + 2, 2 * T + 3, 2 * T + 6])
+            fail = rng.randrange(n)
+            fail_type = rng.choice(sorted(c13.FAIL_TYPES))
+            c13.STATE["input_kind"] = rng.randrange(3)
+            c13.STATE["pauses"] = {rng.randrange(0, 10): rng.choice([0.5, 3.0, 30.0])} if rng.random() < 0.2 else None
+            durations = {rng.randrange(0, n): rng.choice([0.2, 0.7, 1.5, 20.0]) for _ in range(rng.randint(0, 2))}
+            if rng.random() < 0.6:
+                durations[fail] = rng.choice([0.3, 0.7, 1.5, 20.0])
+            c13.STATE["durations"] = durations
+            policy = c13.make_policy(sched_mod, case["policy"], rng.randrange(1 << 30))
+            verdict, sched = c13.one_schedule(sched_mod, lp, policy, T, n, None, fail, "none", fail_type)
+            obs["lazy_pool_schedules"] += 1
+            hashes.add(hash(tuple(sched.trace)))
+            outcome = "raised" if verdict["raised"] is not None else "normal-end"
+            for key, msg in verdict["problems"]:
+                if key == "deadlock":
+                    outcome = "blocked"
+                    mapped = "hang/lazy-pool"
+                elif key in ("failure-swallowed", "lost-result"):
+                    mapped = "silent-truncation/lazy-pool"
+                else:
+                    mapped = f"lazy-pool/{key}"
+                if len(violations) < 8:
+                    violations.append({"key": mapped, "msg": f"T={T} n={n} failing input {fail} ({fail_type}), slow calls "
+                                                              f"{durations}: {msg}"})
+            if outcome == "normal-end" and not verdict["problems"]:
+                violations.append({"key": "silent-truncation/lazy-pool",
+                                   "msg": f"T={T} n={n} failing input {fail}: the pass ended normally"})
+            obs[f"outcome:{outcome}"] += 1
+    finally:
+        c13.ensure_uninstalled()
+    obs["premise_held"] = obs["lazy_pool_schedules"]
+    return {"sig": ["lazy-pool", case["policy"], case["seed"]], "nontrivial": True, "violations": violations,
+            "obs": {**obs, "distinct_lazy_pool_schedules": len(hashes)},
+            "sample": {"lazy_pool_controlled": case["policy"], "schedules": obs["lazy_pool_schedules"]}}
+
+
 def run_case(case: dict) -> dict:
+    if case.get("kind") == "pool":
+        return run_pool_case(case)
     from sedpack.io import Dataset
     from rtmon import audit as auditor, ds as dsmod, readers
     from rtmon.monitors import delays
